@@ -115,14 +115,14 @@ def run(chk):
     chk.rule = ('generated annotations of length 1..6 (all modification kinds except intervals) x size in None,1..n,n+1,n+3 x '
                 'four operations, always on copies; non-trivial = at least 2 results and at least one residue modification or global; '
                 'distinct = distinct protocol line')
-    limit = 800 if tier == 'quick' else 50000
+    limit = 800 if tier == 'quick' else 8000
 
     # ------------------------------------------------------------------ corpus (replayed first)
     corpus = []
     for c in load_corpus():
         corpus.append((c['op'], annot.dump(pp.parse(c['seq'])), c['size']))
     # ------------------------------------------------------------------ correspondence: the four expansions
-    n_ann = 90 if tier == 'quick' else 1200
+    n_ann = 90 if tier == 'quick' else 500
     anns = []
     for i in range(n_ann):
         # one case in ten carries intervals (outside the property's quantifier: they are popped and never come back;
@@ -139,8 +139,11 @@ def run(chk):
             for op in OPS:
                 kk = n if k is None else k
                 if expected_count(op, n, kk) > limit:
-                    chk.count('skipped_large')
-                    continue
+                    # the largest enumerations (6^6 = 46656 results) only for a few annotations of the thorough tier
+                    if tier == 'quick' or chk.distribution.get('large_cases', 0) >= 4:
+                        chk.count('skipped_large')
+                        continue
+                    chk.count('large_cases')
                 cases.append((op, d, k))
 
     def line(c):
